@@ -57,6 +57,14 @@ def traces():
                  [P("/p/noext", rels=[R("A", "t.dat"), R("B", "t.dat", t="urn:other"), R("rId5", "t.dat")]),
                   P("/p/t.dat"), P("/p/orphan.dat")],
                  [R("rId10", "p/noext"), R("rId2", "p/t.dat")]))
+    # percent-escapes are part of a part name (the ZIP item is called exactly that); targets spell them the same way
+    for form in ("stream", "path", "dir"):
+        out.append(T("percent-escaped-names-%s" % form,
+                     [P("/ppt/slides/slide1.bin", rels=[R("rId1", "../media/my%20picture.png"), R("rId2", "/ppt/media/%C3%A9t%C3%A9.png"),
+                                                        R("rId3", "../my%20dir/100%25.dat")]),
+                      P("/ppt/media/my%20picture.png", "image/png"), P("/ppt/media/%C3%A9t%C3%A9.png", "image/png"),
+                      P("/ppt/my%20dir/100%25.dat", rels=[R("rId1", "../media/my%20picture.png")])],
+                     [R("rId1", "ppt/slides/slide1.bin")], cyc={"form": form, "form2": form}))
     # XML part types python-pptx re-serialises
     out.append(T("xmlparts",
                  [P("/ppt/slides/slide1.xml", "application/vnd.openxmlformats-officedocument.presentationml.slide+xml",
